@@ -121,7 +121,9 @@ def run(ck: Check):
     palettes = [[bytes([0x80 + 7 * i]) for i in range(9)], [b"\xc3", b"\xa9", b"b", b"\xe2", b"\x82", b"\xac", b"c", b"\xf0", b"\x9f"],
                 [b"'", b"\\", b'"', b"\\'", b"`", b"\\\\", b"'", b'"', b"\\"], [b"\n", b"\r", b"\r\n", b"\n", b"\x0c", b"\xc2\x85", b"\n", b"\r", b"\n"],
                 [b"{", b"}", b"(", b")", b"[", b"]", b"{\n", b"}\n", b" "], [b"DDBEGIN\n", b"DDEND\n", b"x", b"DDBEGIN", b"DDEND", b"\xff", b"\xfe", b"\xef\xbb\xbf", b"\x00"],
-                [b"a"] * 9, [b"<a", b" b=c", b">", b"<", b" d", b"/>", b"=", b'"e"', b">"]]
+                [b"a"] * 9, [b"<a", b" b=c", b">", b"<", b" d", b"/>", b"=", b'"e"', b">"],
+                # empty parts (a rewriting strategy can leave one behind): positions, not contents
+                [b"", b"a", b"", b"b", b"", b"", b"c", b"", b"d"], [b""] * 9]
     Lc = 4 if ck.tier == "quick" else 6
     for cls in classes:
         for pal in palettes:
